@@ -66,6 +66,7 @@ type WeatherSpec struct {
 	Code       string // fcode
 	Folder     string
 	CO2InFile  float64 // layout 2: CO2 column value (0 = no column)
+	ExactTavg  bool    // write the mean temperature with full precision (pairs with the layout that derives it from min/max)
 }
 
 type RotEntry struct {
